@@ -21,6 +21,12 @@
 (*                 monitor's Stop waits for the mutex Execute holds        *)
 (*   "kill-tree"   the cancellation kills the tree: TERM to the child,     *)
 (*                 KILL to its group                                       *)
+(* ReapedGroupKill: FALSE = as coded (named deviation): once Execute's Wait  *)
+(* has reaped a direct child that exited by itself, the library has no     *)
+(* process left to signal and a later cancellation reaches nobody; TRUE =  *)
+(* the group is still killed by its id.                                    *)
+(* WaitDelay: Wait gives up on the pipes a bounded time after the child    *)
+(* died (a descendant that left the group may still hold them).            *)
 (* Stop() after Start(): KillWithChildren (TERM, KILL to the group) and    *)
 (* Wait.                                                                   *)
 (*                                                                         *)
@@ -31,7 +37,7 @@
 (***************************************************************************)
 EXTENDS Naturals, FiniteSets, TLC, Json
 
-CONSTANTS Desc, OnCancel
+CONSTANTS Desc, OnCancel, WaitDelay, ReapedGroupKill
 
 Procs == {0} \cup Desc
 VARIABLES parent, inGroup, ignTerm, holds, rootExits, startMode, stopMode,    \* the scenario
@@ -44,6 +50,8 @@ Init == /\ parent \in [Desc -> Procs] /\ \A d \in Desc : parent[d] < d
         /\ inGroup \in [Desc -> BOOLEAN] /\ ignTerm \in [Desc -> BOOLEAN] /\ holds \in [Desc -> BOOLEAN]
         \* a process that left the group is out of the statement's scope; so are its children unless they ... keep it simple: leaving the group is inherited
         /\ \A d \in Desc : (parent[d] # 0 /\ ~inGroup[parent[d]]) => ~inGroup[d]
+        \* the output pipes are inherited: only a child of a process that still has them can hold them
+        /\ \A d \in Desc : IF parent[d] = 0 THEN TRUE ELSE (holds[d] => holds[parent[d]])
         /\ rootExits \in BOOLEAN
         /\ startMode \in {"execute", "start"}
         /\ stopMode \in {"ctx", "cancel", "stop"}
@@ -68,7 +76,9 @@ InGroupAlive == {d \in Desc : spawned[d] /\ alive[d] /\ inGroup[d]}
 
 \* signals: either the direct child only, or TERM to it then KILL to the whole group
 Signals == /\ phase = "requested"
-           /\ IF KillTree
+           /\ IF startMode = "execute" /\ ~alive[0] /\ ~ReapedGroupKill
+              THEN UNCHANGED alive          \* the direct child was already waited for: nobody left to signal
+              ELSE IF KillTree
               THEN alive' = [p \in Procs |-> IF p = 0 \/ (p \in Desc /\ inGroup[p]) THEN FALSE ELSE alive[p]]
               ELSE alive' = [alive EXCEPT ![0] = FALSE]
            /\ phase' = "signalled" /\ termSent' = TRUE
@@ -76,7 +86,8 @@ Signals == /\ phase = "requested"
 
 PipeHeld == \E d \in Desc : spawned[d] /\ alive[d] /\ holds[d]
 \* Wait returns: the direct child is dead and the pipes are closed
-Return == /\ phase = "signalled" /\ ~alive[0] /\ ~PipeHeld
+\* (WaitDelay: after a bounded delay the pipes are closed by force)
+Return == /\ phase = "signalled" /\ ~alive[0] /\ (~PipeHeld \/ WaitDelay)
           /\ phase' = "returned" /\ isOn' = FALSE
           /\ UNCHANGED <<scenario, spawned, alive, termSent>>
 
